@@ -105,6 +105,12 @@ STATEMENTS = [
     'assign zn 7 get zn ' + COLOUR.format(81),
     'repeat with zi from 1 to 2 begin set zi end',
     'assign zn 3 repeat in zn and "B" as y begin on y end',
+    # a name that exists, but as another kind of thing: a location asked for
+    # as a group, a group as a location, a light as either
+    'set group "P1"', 'off location "G1"', 'on group "P2"',
+    'set location "G2"', 'set group "A"', 'on location "Z"',
+    'repeat in group "P1" as y begin set y end',
+    'on "B" and location "G1" and "M"',
 ]
 
 
@@ -154,6 +160,11 @@ STRIPPED = {
     'repeat with zi from 1 to 2 begin set zi end': ('', ()),
     'assign zn 3 repeat in zn and "B" as y begin on y end':
         ('repeat in "B" as y begin on y end', ()),
+    'set group "P1"': ('', ()), 'off location "G1"': ('', ()),
+    'on group "P2"': ('', ()), 'set location "G2"': ('', ()),
+    'set group "A"': ('', ()), 'on location "Z"': ('', ()),
+    'repeat in group "P1" as y begin set y end': ('', ()),
+    'on "B" and location "G1" and "M"': ('on "B" and "M"', ()),
 }
 assert all(k in STATEMENTS for k in STRIPPED)
 
